@@ -30,7 +30,7 @@ def frameread_rule(line, got, spec):
     op = line.split(" ", 1)[0]
     if op == "rda":
         return got == spec
-    if op == "rds":
+    if op in ("rds", "rdm"):
         g, s = got.split(" | "), spec.split(" | ")
         # a frame of unknown type cut short is reported as unknown-type (its missing bytes
         # discarded silently); the caller skips it and meets the end of input on the next read
@@ -41,7 +41,7 @@ def frameread_rule(line, got, spec):
 
 
 def framewrite_rule(line, got, spec):
-    if line.startswith("rw "):
+    if line.startswith(("rw ", "rwd ", "rwa ")):
         # a frame read and written back must read back to the same accessor values
         return spec == "same-view"
     if got.startswith("x:"):
@@ -87,7 +87,7 @@ PROPS = {
     "C05": {
         "suites": ["framewrite", "frameread"],
         "rule": "write: frames read and written back (forwarding); 10 types x all 256 pre-set flag octets x payload lengths {0,1,4..9,16383,16384,16385} x padding "
-                "on/off x stream ids {0,1,2,2^31-1,2^31,..} x boundary field values, each value also written twice; "
+                "on/off x stream ids {0,1,2,2^31-1,2^31,..} x boundary field values, each value also written twice, and on a FrameHeader used before (recycled through the pool, junk payload/length); SETTINGS acknowledged in place; "
                 "read: frames written by x/net's Framer and by a raw writer (any flags, reserved bits, padding content); "
                 "non-trivial = non-empty frame bytes; distinct by case line",
         "explanation": "Theorems in coq/Props/C05.v about the Gallina model of the frame codec against "
@@ -100,7 +100,7 @@ PROPS = {
         "suites": ["frameread"],
         "rule": "all 2^16 (type,flags) headers x short payloads, impossible fixed sizes / pad lengths / SETTINGS values, "
                 "lengths around the limit with the payload present or cut, every prefix of valid frame streams read to "
-                "the end on one reader, every prefix of single frames, random soups; pool tracker log compared per call",
+                "the end on one reader, every prefix of single frames, random soups, reads with mixed limits (ReadFrameFrom / ReadFrameFromWithSize(0, 100, 2^14, 2^20, ...)) on one pool; pool tracker log compared per call",
         "explanation": "Theorems in coq/Props/C16.v (read_total, read_sound, structure_rejected, truncation, pool_safe) "
                        "about the Gallina model of ReadFrameFromWithSize; model tied to the code by the frameread suite.",
         "assumptions": _ASSUME,
